@@ -365,3 +365,141 @@ func (e *boolEnv) enterBlock(fr *Frame, b, pred *ssa.BasicBlock) {
 		}
 	}
 }
+
+// ---- struct values carried through locals, parameters and helper results ----
+//
+// A refactoring may wrap values in a small struct (`res := lstatResult{st, err}`
+// returned by a helper, tested through methods with a value receiver). go/ssa
+// keeps such structs in local slots (a field selection takes the slot's
+// address, so the slot is not lifted to a register). resolveField follows a
+// field read back to the value that was put into that field: through the
+// unique store into the slot, through parameters of inlined helpers to the
+// caller's argument, and through the result an inlined helper returned on the
+// current path. It gives up (returns v unchanged) at anything ambiguous: more
+// than one store, a phi, a slot whose address escapes.
+
+type structResolver struct {
+	vals map[ssa.Value]ssa.Value // helper results on the current path (may be nil)
+}
+
+// resolveField returns the value stored in the field that v reads, or v.
+func (sr structResolver) resolveField(fr *Frame, v ssa.Value) ssa.Value {
+	for i := 0; i < 4; i++ {
+		var r ssa.Value
+		ok := false
+		switch x := v.(type) {
+		case *ssa.Field:
+			r, _, ok = sr.fieldOfValue(fr, x.X, x.Field, 0)
+		case *ssa.UnOp:
+			if x.Op != token.MUL {
+				return v
+			}
+			fa, isFA := x.X.(*ssa.FieldAddr)
+			if !isFA {
+				return v
+			}
+			a, isA := fa.X.(*ssa.Alloc)
+			if !isA {
+				return v
+			}
+			r, _, ok = sr.fieldOfSlot(fr, a, fa.Field, 0)
+		default:
+			return v
+		}
+		if !ok || r == nil {
+			return v
+		}
+		v = r
+	}
+	return v
+}
+
+// fieldOfSlot: the value of field idx of the struct held in local slot a.
+func (sr structResolver) fieldOfSlot(fr *Frame, a *ssa.Alloc, idx int, depth int) (ssa.Value, *Frame, bool) {
+	if depth > 8 || a.Referrers() == nil {
+		return nil, nil, false
+	}
+	var whole, field []ssa.Value
+	for _, ref := range *a.Referrers() {
+		switch x := ref.(type) {
+		case *ssa.Store:
+			if x.Addr != ssa.Value(a) {
+				return nil, nil, false // the slot's address is stored somewhere
+			}
+			whole = append(whole, x.Val)
+		case *ssa.FieldAddr:
+			if x.Referrers() == nil {
+				return nil, nil, false
+			}
+			for _, r2 := range *x.Referrers() {
+				switch y := r2.(type) {
+				case *ssa.Store:
+					if y.Addr != ssa.Value(x) {
+						return nil, nil, false
+					}
+					if x.Field == idx {
+						field = append(field, y.Val)
+					}
+				case *ssa.UnOp, *ssa.DebugRef:
+				case *ssa.FieldAddr, *ssa.IndexAddr:
+					// nested aggregate: only reads are tolerated for the field we follow
+					if x.Field == idx {
+						return nil, nil, false
+					}
+				default:
+					return nil, nil, false // address of a field escapes (call argument, …)
+				}
+			}
+		case *ssa.UnOp, *ssa.DebugRef:
+		default:
+			return nil, nil, false // the slot's address escapes
+		}
+	}
+	switch {
+	case len(whole) == 1 && len(field) == 0:
+		return sr.fieldOfValue(fr, whole[0], idx, depth+1)
+	case len(whole) == 0 && len(field) == 1:
+		v := field[0]
+		if fr != nil {
+			v = fr.Canon(v)
+		}
+		return v, fr, true
+	}
+	return nil, nil, false
+}
+
+// fieldOfValue: the value of field idx of the struct value s (seen in frame fr).
+func (sr structResolver) fieldOfValue(fr *Frame, s ssa.Value, idx int, depth int) (ssa.Value, *Frame, bool) {
+	if depth > 8 {
+		return nil, nil, false
+	}
+	switch x := s.(type) {
+	case *ssa.Parameter:
+		// the caller's argument, in the caller's frame
+		for f := fr; f != nil && f.call != nil; f = f.parent {
+			if f.fn != x.Parent() {
+				continue
+			}
+			for i, pp := range f.fn.Params {
+				if pp == x && i < len(f.call.Common().Args) {
+					return sr.fieldOfValue(f.parent, f.call.Common().Args[i], idx, depth+1)
+				}
+			}
+		}
+		return nil, nil, false
+	case *ssa.UnOp:
+		if x.Op != token.MUL {
+			return nil, nil, false
+		}
+		if a, ok := x.X.(*ssa.Alloc); ok {
+			return sr.fieldOfSlot(fr, a, idx, depth+1)
+		}
+	case *ssa.Call, *ssa.Extract:
+		if rv, ok := sr.vals[s]; ok && rv != nil && rv != s {
+			// what the inlined helper returned on this path (already canonical in
+			// the helper's frame, which has returned: parameters stay unresolved)
+			return sr.fieldOfValue(nil, rv, idx, depth+1)
+		}
+	}
+	return nil, nil, false
+}
